@@ -4,9 +4,15 @@ overlap_arrays at the estimated offset) against PewModel/Register.lean.
 A case cuts two windows A, B out of one generated scene; the true translation is offB - offA.
 The driver evaluates the mechanism model (zero padding, circular correlation, first maximum,
 decode) and the specification (exact linear cross-correlation over the lag box: its maximum, the
-lag of the maximum and the largest value among the other lags).  A part of a case is compared only
-when the exact maximum is well separated (relative margin >= 5 %) and sits at the true translation;
-otherwise the premise of the property does not hold for that pair and the part is masked.
+lag of the maximum and the largest value among the other lags).  A part of a case is compared whenever
+the exact maximum is well separated (relative margin >= 5 %): the implementation's estimate against the
+lag of the specification's maximum (theorems peak_margin_unique / peak_margin_register make the margin
+imply that the mechanism returns that lag) and against the mechanism model, wherever that maximum sits.
+Whether it sits at the true translation is a feature of the case ("peak-at-truth"); the driver also
+evaluates the decidable scene hypothesis `truthHyp` of theorem register_truth ("estimate = true
+translation"): where it holds the driver itself checks that the peak lag is the true translation.
+The merge clause is compared when the maximum is well separated and at the true translation, in replace
+and mean modes with fills NaN, 0 and 2.5 (theorem merge_whole: the driver's `spec` is `mergeSpec`).
 
 Scale classes: a case may carry `scale` = {"pow2": k} (scene * 2**k, exact) or {"dec": "1e-9"} (scene * float("1e-9"),
 rounded once per pixel); the driver always receives the exact rational value of every float64 pixel that pewlib
@@ -33,6 +39,7 @@ from harness.core import Prop, outcome, unrat
 ANCHORS = ["top left", "top right", "bottom left", "bottom right", "center"]
 MARGIN = Fraction(1, 20)
 MASK = "premise-fails"
+MERGE_VARIANTS = [(m, f) for m in ("replace", "mean") for f in (None, 0.0, 2.5)]
 LONG_COST = 1_500_000  # products of the model (|s|^2 + |s| |b|) above which the array twin route is used
 POW2 = [-40, -30, 30, 60]
 DEC = ["1e-9", "1e9"]
@@ -134,8 +141,10 @@ class C12(Prop):
             "(integer textures * 2^k, k in -40 -30 +30 +60, exact; real texture * 1e-9 / 1e9), half of those equally shaped "
             "and displaced; long axes (transform length a+b-1 in 1100..1900 or 2100..2700, 1-D, or 2-D with a short second "
             "axis; both signs; equal and very unequal sizes): 10 fixed pairs on every run plus ~0.4 % (quick) / 0.8 % + 24 "
-            "(thorough) of the generated pairs; non-trivial = the exact cross-correlation "
-            "has a maximum >= 5 % above every other lag at the true translation, so that the pair is compared; "
+            "(thorough) of the generated pairs; a seventh of the pairs with the scene set to zero outside the overlap of the two windows (the scene "
+            "hypothesis of theorem register_truth then holds); non-trivial = the exact cross-correlation "
+            "has a maximum >= 5 % above every other lag, so that the pair is compared (whether or not the maximum is at the "
+            "true translation: that is a feature); "
             "anchors: every shape pair <= 12 x 12 with the five anchors on every run, plus random larger shapes; "
             "distinct by canonical case hash")
     trusted = ["np.fft.rfftn/irfftn(s=...) compute the circular cross-correlation of the zero padded arrays "
@@ -154,8 +163,9 @@ class C12(Prop):
                "whole model output on every pair below the limit, several thousand calls per run) is kept as a sanity check of "
                "exactly that; any difference stops the run (exit 2)"]
     assumptions = ["a pair whose exact cross-correlation maximum leads the runner-up by < 5 % (or by < 1e-9 of the "
-                   "product of the 1-norms), or whose maximum is not at the true translation, is outside the property's "
-                   "premise ('unique, well-separated maximum') and is masked, never a violation",
+                   "product of the 1-norms) is outside the property's premise ('unique, well-separated maximum') and is masked, "
+                   "never a violation; a well-separated maximum that is not at the true translation is compared all the same "
+                   "(estimate = lag of the maximum), only the merge clause is masked there",
                    "a scaled scene with a non-zero pixel magnitude outside [2^-200, 2^200] (products could under/overflow in "
                    "float64) is not compared (undetermined)"]
 
@@ -201,6 +211,16 @@ class C12(Prop):
         scene = self.gen_scene(rng, shape, kind)
         offA = [-o + p for o, p in zip(org, pad_lo)]
         offB = [oa + l for oa, l in zip(offA, t)]
+        if extra and extra.get("bg") == "zero":
+            # texture only inside the overlap of the two windows: each window is then the window of the other (zero-extended)
+            # at the true translation and carries all of its energy there
+            lo = [max(x, y) for x, y in zip(offA, offB)]
+            hi = [min(x + p, y + q) for x, p, y, q in zip(offA, sa, offB, sb)]
+            arr = np.array(scene["data"], dtype=object).reshape(shape)
+            keep = np.zeros(shape, dtype=bool)
+            keep[tuple(slice(l, h) for l, h in zip(lo, hi))] = True
+            arr[~keep] = 0
+            scene["data"] = [int(v) for v in arr.ravel()]
         case = {"kind": "reg", "texture": kind, "rel": rel, "scene": scene,
                 "A": {"off": offA, "shape": list(sa)}, "B": {"off": offB, "shape": list(sb)}}
         if scale is not None:
@@ -295,7 +315,7 @@ class C12(Prop):
             if ax:
                 i = rng.choice(ax)
                 t[i] = rng.choice([-1, 1]) * rng.randint(1, max(1, (sa[i] - 1) // 2))
-        return self.assemble(rng, sa, sb, t, kind, rel, scale)
+        return self.assemble(rng, sa, sb, t, kind, rel, scale, {"bg": "zero"} if rng.random() < 0.15 else None)
 
     def targeted(self, tier):
         # anchors: every shape pair <= 12 x 12, the five anchors
@@ -380,17 +400,18 @@ class C12(Prop):
             if rep["lag"] == want and (rep["asked"][0] is None or unrat(rep["asked"][0]) != unrat(rep["max"])):
                 raise core.InternalError("c12.registerLong: the model's xcorr at the true lag is not the reported maximum")
         else:
-            rep = ctx.driver.call("c12.register", a=jx, b=jy)
+            rep = ctx.driver.call("c12.register", a=jx, b=jy, truth=list(want))
         mx = unrat(rep["max"])
         ru = unrat(rep["runner"])
         if ru is None:
             determined = True  # a single lag: nothing to separate
         else:
             determined = mx > 0 and (mx - ru) >= MARGIN * mx and (mx - ru) >= Fraction(1, 10 ** 9) * n1
-        at_truth = rep["lag"] == want
-        if not (determined and at_truth):
+        rep["at_truth"] = rep["lag"] == want
+        if not determined:
             return MASK, MASK, MASK, False, rep
-        return impl, rep["model"], want, True, rep
+        # estimate = lag of the unique, well-separated maximum of the specification (wherever it sits)
+        return impl, rep["model"], rep["lag"], True, rep
 
     def evaluate(self, case, ctx):
         from pewlib.process import register
@@ -417,24 +438,37 @@ class C12(Prop):
             parts.append(("aa", a, a, zero))
         if b.any():
             parts.append(("bb", b, b, zero))
-        det = {}
+        det, reps = {}, {}
         for name, x, y, want in parts:
-            impl[name], model[name], spec[name], det[name], _ = self.reg_part(ctx, register, x, y, want)
-        # register, then merge at the estimated offset
-        if det["ab"] and isinstance(impl["ab"], list):
-            try:
-                res = register.overlap_arrays([a, b], [tuple(zero), tuple(impl["ab"])])
-                impl["merge"] = {"shape": list(res.shape), "data": [fhex(v) for v in res.ravel()]}
-            except Exception as e:
-                impl["merge"] = {"raises": type(e).__name__, "msg": str(e)[:200]}
+            impl[name], model[name], spec[name], det[name], reps[name] = self.reg_part(ctx, register, x, y, want)
+            if det[name]:
+                feats.add(f"{name}:peak-at-truth" if reps[name]["at_truth"] else f"{name}:peak-not-at-truth(compared)")
+                if reps[name].get("truthHyp"):
+                    feats.add(f"{name}:truth-theorem-applies")
+        # register, then merge at the estimated offset: the clause presupposes that the estimate is the true translation
+        merge_on = det["ab"] and reps["ab"]["at_truth"] and isinstance(impl["ab"], list)
+        if merge_on:
+            impl["merge"], model["merge"], spec["merge"] = [], [], []
             rep = ctx.driver.call("c12.merge", scene=img_json(scene), offA=A["off"], offB=B["off"],
-                                  shapeA=A["shape"], shapeB=B["shape"])
-            model["merge"] = {"shape": rep["shape"], "data": [qhex(v) for v in rep["model"]]}
-            spec["merge"] = {"shape": rep["shape"], "data": [qhex(v) for v in rep["spec"]]}
-            if "nan" in spec["merge"]["data"]:
+                                  shapeA=A["shape"], shapeB=B["shape"],
+                                  variants=[{"mode": m, "fill": None if f is None else core.rat(Fraction(f))}
+                                            for m, f in MERGE_VARIANTS])
+            for (m, f), r in zip(MERGE_VARIANTS, rep["results"]):
+                try:
+                    res = register.overlap_arrays([a, b], [tuple(zero), tuple(impl["ab"])],
+                                                  fill=math.nan if f is None else f, mode=m)
+                    impl["merge"].append({"shape": list(res.shape), "data": [fhex(v) for v in res.ravel()]})
+                except Exception as e:
+                    impl["merge"].append({"raises": type(e).__name__, "msg": str(e)[:200]})
+                model["merge"].append({"shape": r["shape"], "data": [qhex(v) for v in r["model"]]})
+                spec["merge"].append({"shape": r["specShape"], "data": [qhex(v) for v in r["spec"]]})
+            if "nan" in spec["merge"][0]["data"]:
                 feats.add("merge:uncovered-corner")
+            feats.add("merge:replace+mean x fill nan/0/finite")
         else:
             impl["merge"] = model["merge"] = spec["merge"] = MASK
+        if case.get("bg") == "zero":
+            feats.add("zero-background")
         if det["ab"]:
             s = [x + y - 1 for x, y in zip(A["shape"], B["shape"])]
             feats |= {f"ndim{d}", "texture:" + case.get("texture", "?"), "rel:" + case.get("rel", "?")}
